@@ -64,12 +64,22 @@ const KINDS: &[Kind] = &[
     // the marker characters quoted mid-line further up do not shift the line of the real marker
     Kind { name: "git conflict marker below the same characters quoted in a comment", body: &[], top: &["// resolved last week: <<<<<<< HEAD stood here", "<<<<<<< HEAD"], either: false },
     Kind { name: "git conflict marker below the same characters inside a string", body: &[], top: &["note_q :: \"<<<<<<< ours\"", "    // indented: <<<<<<< theirs", "<<<<<<< HEAD"], either: false },
+    // the requirement is written elsewhere (in the body of an un-annotated function of another file, in a std
+    // signature): the call that cannot meet it is where the program is wrong
+    Kind { name: "type: literal arguments an un-annotated imported function cannot add", body: &["x := @NS@.inf2_q(1, \"two\")"], top: &[], either: false },
+    Kind { name: "type: literal arguments an un-annotated imported function cannot compare", body: &["x := @NS@.infl_q(true, false)"], top: &[], either: false },
+    Kind { name: "type: int given to an un-annotated imported function that reads a field", body: &["x := @NS@.inff_q(3)"], top: &[], either: false },
+    Kind { name: "type: blob without the field an un-annotated imported function reads", body: &["x := @NS@.inff_q(@NS@.HB_q { f: 1 })", "y := @NS@.inff_q((1, 2))"], top: &[], either: false },
+    Kind { name: "type: short tuple given to an un-annotated imported function that indexes it", body: &["x := @NS@.infi_q((1,))"], top: &[], either: false },
+    Kind { name: "type: arguments on a later line that an un-annotated imported function cannot add", body: &["x := @NS@.inf2_q(1,\n    \"two\")"], top: &[], either: false },
+    Kind { name: "type: std function whose signature constrains the element type", body: &["s_q := set.from_list([1])", "set.add(s_q, \"x\")"], top: &[], either: false },
+    Kind { name: "type: std fold with a callback that cannot add its arguments", body: &["x := fold([1], \"s\", pu e, acc -> acc + e end)"], top: &[], either: false },
     // the same name imported from two different modules: the duplicate belongs to the importing file
     Kind { name: "one name from-imported from two modules", body: &[], top: &["from @NS@ use (exp_q)", "from @NS2@ use (exp_q)"], either: true },
     Kind { name: "one alias for names from-imported from two modules", body: &[], top: &["from @NS@ use (exp_q as al_q)", "from @NS2@ use (lit2_q as al_q)"], either: true },
 ];
 
-const NS_EXPORTS: &str = "exp_q :: 7\nlit2_q :: fn a: int -> int do\n    a\nend\nHB_q :: blob {\n    f: int,\n}\n";
+const NS_EXPORTS: &str = "exp_q :: 7\nlit2_q :: fn a: int -> int do\n    a\nend\nHB_q :: blob {\n    f: int,\n}\ninf2_q :: fn a, b ->\n    a + b\nend\ninfl_q :: fn a, b ->\n    a < b\nend\ninff_q :: fn p ->\n    p.f\nend\ninfi_q :: fn p ->\n    p[1]\nend\n";
 
 #[derive(Clone, Copy, PartialEq, Debug)]
 enum Shape {
